@@ -479,6 +479,41 @@ mut("ebr-seal-stale-epoch", "break", ["C13"], "push_bag reads the epoch before t
 
         atomic::fence(Ordering::SeqCst);
 """)], ["EBR-SEAL-FRESH"])
+mut("ok-rec-cap-at-callsite", "benign", [], "the depth cap is tested by the caller, after the hit-zero test, instead of at entry",
+    [ed(U, """    if depth >= 1024 {
+        // Prevent a potential stack overflow.
+        guard.defer_with_inner(rc, |rc| RcInner::try_destruct(rc));
+        return;
+    }
+
+""", ""),
+     ed(U, """            if next_cnt.strong() == 0 {
+                dispose_general_node(next_ptr.as_raw(), depth + 1, counter, guard);
+            }""", """            if next_cnt.strong() == 0 {
+                if depth + 1 >= 1024 {
+                    // Prevent a potential stack overflow.
+                    guard.defer_with_inner(next_ptr.as_raw(), |rc| RcInner::try_destruct(rc));
+                } else {
+                    dispose_general_node(next_ptr.as_raw(), depth + 1, counter, guard);
+                }
+            }""")])
+mut("rec-collect-reentrant", "break", ["C07"], "unpin collects even while a collection is running (flag not tested)",
+    [ed(I, "if guard_count == 1 && !self.collecting.get() {", "if guard_count == 1 {")], ["REC-COLLECT-REENTRY"])
+mut("rec-collecting-cleared-in-schedule", "break", ["C07"], "schedule_collection clears the collecting flag after re-pinning",
+    [ed(I, """        if self.collecting.get() {
+            self.repin_without_collect();
+        }""", """        if self.collecting.get() {
+            self.repin_without_collect();
+            self.collecting.set(false);
+        }""")], ["REC-COLLECT-REENTRY"])
+mut("rec-flush-collects", "break", ["C07"], "schedule_collection collects eagerly",
+    [ed(I, """        if self.collecting.get() {
+            self.repin_without_collect();
+        }""", """        if self.collecting.get() {
+            self.repin_without_collect();
+            let guard = ManuallyDrop::new(Guard { local: self });
+            self.global().collect(&guard);
+        }""")], ["REC-COLLECT-REENTRY"])
 mut("ebr-collect-nested", "break", ["C02", "C13", "C16"], "unpin collects for nested guards too",
     [ed(I, "if guard_count == 1 && !self.collecting.get() {", "if !self.collecting.get() {")], ["EBR-COLLECT-OUTERMOST"])
 mut("ebr-unpin-clears-always", "break", ["C16", "C13"], "unpin clears the local epoch for nested guards",
